@@ -65,6 +65,7 @@ func c19gFixture(c *Ctx, fx *Prog) {
 		"C19-G2:UpdateExprs.Tail/partition",
 		"C19-G2:UpdateExprs/split-index-written@UpdateExprs.Reset",
 		"C19-G3:applyStale/derived-loop",
+		"C19-G3:applyFlat/reads-unsplit-expressions",
 		"C19-G3:upserter.applyLenient/loop/repair-from-accumulator",
 		"C19-G3:upserter.upsertRestart/derived-after-explicit",
 		"C19-G3:upserter.upsertBad/result-is-last-application",
